@@ -1,4 +1,5 @@
 """C09 — reopen yields the same inode for any descriptor number and /proc state."""
+import re
 from ..cfg import cfg_of
 from ..common import *
 from ..cut import bool_edges, origin_keys, result_edges, stmt_bool_edges
@@ -201,7 +202,10 @@ def r3_fd_zero_valid(ctx):
         reach = cfg.edge_targets_reachable(edges)
         for x in reach:
             for s in body.blocks[x].stmts:
-                if s.kind == "assign" and s.lhs.local == 0 and s.rv["k"] == "agg" and s.rv.get("variant") in ("Ok", "Some"):
+                # a success value is built on this side -- in the return slot or, when the test sits in a helper that was
+                # inlined / whose result is post-processed (`sys_call(..).map_err(..)`), in the slot that receives it
+                if s.kind == "assign" and s.rv["k"] == "agg" and s.rv.get("variant") in ("Ok", "Some") and \
+                        re.match(r"^std::(result::Result|option::Option)<", body.local_tys[s.lhs.local] or ""):
                     return True
         return False
 
